@@ -7,6 +7,11 @@ interprets; the step is tools/proctree.c building a process tree from a
 description.  Observation = (how the runner ended, main reaped?, who is alive
 in the step's group per /proc, which signals the runner sent).  Oracle = the
 extracted `spec_okb` (Exec/KillSpec.v) applied to what the implementation did.
+
+The handshake (waiteof) and its "process group failure" path are driven too:
+tools/kl_hold.c, an LD_PRELOAD shim, stops the forked child of robsd-exec
+before setsid(2) with the protocol of VERIF_POINT (script ops H / U), so the
+runner's 1000 ms handshake expires; op E lets the configured timeout pass.
 """
 import hashlib, json, os, subprocess, sys
 from concurrent.futures import ThreadPoolExecutor
@@ -19,14 +24,17 @@ TRUSTED = [
     'a handled signal interrupts a blocking waitpid (no SA_RESTART) and otherwise only sets gotsig, the default '
     'action of SIGTERM ends the runner; delivery latency, PID reuse, members that leave the group (setsid/setpgid), '
     'members forking during the kill and uninterruptible processes are not modelled',
-    'the waiteof() pipe handshake is assumed to succeed (group present within 1 s); the "process group failure" path '
-    'is not modelled',
-    'sync-point hook verif.h/step-exec.c (ROBSD_VERIF), tools/kl_sched.py (scheduler, /proc scanner), tools/proctree.c (probe)',
-    'exitstatus() is modelled with glibc\'s W* macros for non-negative statuses (C06 owns the T2 translation)',
+    'the waiteof() handshake is modelled (hpolls reads, then the "process group failure" path); the child being slow is '
+    'an environment choice (label LUp); a child that dies before closing the pipe (setsid failure) is not modelled',
+    'sync-point hook verif.h/step-exec.c (ROBSD_VERIF), tools/kl_sched.py (scheduler, /proc scanner), tools/proctree.c (probe), '
+    'tools/kl_hold.c (LD_PRELOAD shim: sync point in the forked child before setsid)',
+    'exitstatus(): KillDefs.exitstatus is proved equal to C06\'s clang-translated Gen_Exec.exitstatus for all integers '
+    '(C07_exit_mapping); the translation itself is C06\'s',
 ]
 
 PRE_HANDLER = ('exec.after_fork', 'exec.after_sigpipe')
 PRE_WAIT = ('exec.after_sigterm', 'exec.after_sigalrm', 'exec.before_waitpid')
+GROUP_FAIL = ('blocked.groupfail',)
 
 QUICK_TREES = ['d()', 'i()', 'd(d()i())', 'ie5(d(d())de0())', 'de0(d()de7())', 'de3(d(d(i()))ie0()d())']
 
@@ -123,6 +131,24 @@ def scripts_for(tree, rng, full):
             add('canvas', 0, [('B', ''), ('X', k), ('X', 0), ('F', '')])
     if not main_early:
         add('canvas', 0, [('B', ''), ('F', '')])                                  # nothing happens: hang, no kill
+    # --- the handshake fails: the child is held before setsid for longer than waiteof's 1000 ms -----
+    lanes = []
+    lanes.append(('canvas', 0, [('H', ''), ('B', ''), ('S', 'TERM'), ('F', ''), ('U', '')]))       # W3, group never up
+    lanes.append(('canvas', 0, [('H', ''), ('B', ''), ('U', ''), ('S', 'TERM'), ('F', '')]))       # W3, step running
+    lanes.append(('regress', 1, [('H', ''), ('B', ''), ('U', ''), ('E', ''), ('F', '')]))          # timeout never armed
+    lanes.append(('regress', 3600, [('H', ''), ('R', 'exec.after_sigterm'), ('S', 'TERM'), ('F', ''), ('U', ''), ('F', '')]))
+    lanes.append(('canvas', 0, [('H', ''), ('R', 'exec.after_fork'), ('S', 'TERM'), ('F', ''), ('U', '')]))
+    lanes.append(('regress', 3600, [('H', ''), ('R', 'exec.after_sigalrm'), ('U', ''), ('F', '')]))  # point never reached
+    if main_early:
+        lanes.append(('canvas', 0, [('H', ''), ('B', ''), ('U', ''), ('X', 0), ('F', '')]))        # no event: code or 1
+        lanes.append(('canvas', 0, [('H', ''), ('B', ''), ('U', ''), ('X', 0), ('R', 'exec.after_wait'), ('F', '')]))
+        lanes.append(('canvas', 0, [('H', ''), ('B', ''), ('U', ''), ('S', 'TERM'), ('F', ''), ('X', 0)]))
+    else:
+        lanes.append(('canvas', 0, [('H', ''), ('B', ''), ('U', ''), ('F', '')]))                  # no event: hang
+    # the child is held, but released before the handshake expires: nothing special happens
+    lanes.append(('canvas', 0, [('H', ''), ('R', 'exec.after_sigterm'), ('U', ''), ('B', ''), ('S', 'TERM'), ('F', '')]))
+    for mode, to, script in (lanes if full else lanes[:3] + [rng.choice(lanes[3:])]):
+        add(mode, to, script)
     return out
 
 
@@ -154,14 +180,18 @@ def build_probe(ctx):
     r = common.sh(['cc', '-O1', '-o', exe, os.path.join(common.VERIF, 'tools', 'proctree.c')])
     if r.returncode != 0:
         raise common.BuildFailure('proctree does not build: ' + r.stdout[-500:])
-    return exe
+    hold = os.path.join(d, 'kl_hold.so')
+    r = common.sh(['cc', '-O1', '-shared', '-fPIC', '-o', hold, os.path.join(common.VERIF, 'tools', 'kl_hold.c'), '-ldl'])
+    if r.returncode != 0:
+        raise common.BuildFailure('kl_hold.so does not build: ' + r.stdout[-500:])
+    return exe, hold
 
 
-def run_impl(impl, probe, work, idx, case):
+def run_impl(impl, probe, hold, work, idx, case):
     d = os.path.join(work, 'c%d' % idx)
     os.makedirs(d)
     c = dict(case)
-    c.update({'impl': impl, 'probe': probe, 'work': d})
+    c.update({'impl': impl, 'probe': probe, 'hold': hold, 'work': d})
     try:
         r = subprocess.run([sys.executable, os.path.join(common.VERIF, 'tools', 'kl_sched.py')], input=json.dumps(c),
                            stdout=subprocess.PIPE, stderr=subprocess.PIPE, text=True, timeout=120)
@@ -202,22 +232,46 @@ def history_of_obs(case, o):
     return event, late, self_, first_where
 
 
+BEFORE_HANDSHAKE = ('exec.after_fork', 'exec.after_sigpipe', 'exec.after_sigterm')
+
+
+def expected_slow(case):
+    """from the script alone: was the child held while the runner was let past the handshake"""
+    sc = case['script']
+    if not sc or sc[0][0] != 'H':
+        return False
+    for op, arg in sc[1:]:
+        if op == 'U':
+            return False
+        if op in ('B', 'F') or (op == 'R' and arg not in BEFORE_HANDSHAKE):
+            return True
+    return False
+
+
+def slow_of_obs(o):
+    """the step's group was not there within the handshake timeout (the runner said so)"""
+    return 'slow' if o.get('slow') else 'intime'
+
+
 def canon_obs(case, o):
     event, late, self_, _ = history_of_obs(case, o)
     res = o['result']
     result = 'hang' if res[0] == 'hang' else '%s:%d' % (res[0], res[1])
     kills = ','.join(str(k) for k in o['kills']) or '-'
     reached = ','.join('fuel' if r == 'timeout' else r for r in o['reached']) or '-'
-    return ' '.join([result, o['main'], bits(o['alive']), kills, signame(event), signame(late), bits(self_), 'det', reached])
+    return ' '.join([result, o['main'], bits(o['alive']), kills, signame(event), signame(late), bits(self_), 'det', reached,
+                     slow_of_obs(o)])
 
 
 def model_line(case):
     toks = []
     for op, arg in case['script']:
-        if op in ('B', 'F'):
+        if op in ('B', 'F', 'H', 'U', 'E'):
             toks.append(op)
+        elif op == 'S' and arg == 'ALRMREAL':
+            toks.append('E')
         elif op == 'S':
-            toks.append('S:' + ('ALRM' if arg == 'ALRMREAL' else arg))
+            toks.append('S:' + arg)
         elif op in ('R', 'X'):
             toks.append('%s:%s' % (op, arg))
     return ' '.join(['run', str(case['timeout']), case['tree']] + toks)
@@ -225,8 +279,8 @@ def model_line(case):
 
 def oracle_line(case, o):
     c = canon_obs(case, o).split()
-    # ok <tree> <event> <late> <self> <result> <main> <alive> <kills>
-    return ' '.join(['ok', case['tree'], c[4], c[5], c[6], c[0], c[1], c[2], c[3]])
+    # ok <tree> <event> <late> <self> <slow> <result> <main> <alive> <kills>
+    return ' '.join(['ok', case['tree'], c[4], c[5], c[6], c[9], c[0], c[1], c[2], c[3]])
 
 
 def signature(case, o):
@@ -243,6 +297,9 @@ def signature(case, o):
         return 'sigterm-before-handler'
     if where in PRE_WAIT:
         return 'signal-before-waitpid'
+    if where in GROUP_FAIL and not o['kills'] and (event == 'ALRM' or o['result'] == ['exit', 1]):
+        # the shape of the known finding: SIGTERM -> exit 1 at once / expiry unnoticed, nothing sent to the group
+        return 'signal-during-group-failure'
     if o['result'][0] != 'exit':
         return 'runner-%s-after-event-at-%s' % (o['result'][0], where)
     if o['main'] != 'reaped':
@@ -263,14 +320,14 @@ def evaluate(ctx, cases, res, env=None):
     env = env or {}
     if 'impl' not in env:
         env['impl'] = ctx.build_impl()
-        env['probe'] = build_probe(ctx)
+        env['probe'], env['hold'] = build_probe(ctx)
         env['drv'] = ctx.build_driver('kl', withz=True)
         env['work'] = ctx.mkscratch('c07work')
         env['n'] = 0
     base = env['n']
     env['n'] += len(cases)
     with ThreadPoolExecutor(24) as ex:
-        obs = list(ex.map(lambda ic: run_impl(env['impl'], env['probe'], env['work'], base + ic[0], ic[1]),
+        obs = list(ex.map(lambda ic: run_impl(env['impl'], env['probe'], env['hold'], env['work'], base + ic[0], ic[1]),
                           enumerate(cases)))
     qs = []
     for c, o in zip(cases, obs):
@@ -294,12 +351,22 @@ def evaluate(ctx, cases, res, env=None):
         res.count('result=%s' % (o['result'][0] if o['result'][0] != 'exit' else 'exit:%d' % o['result'][1]))
         res.count('event=%s@%s' % (event, where) if event else ('late=%s' % late if late else 'no-event'))
         res.count('kills=%s' % (','.join(map(str, o['kills'])) or 'none'))
+        if o.get('slow'):
+            res.count('handshake timed out ("process group failure")')
+        if o.get('held') and not o.get('slow'):
+            res.count('child held, released before the handshake expired')
         if o['alive'] != o['alive_at_exit']:
             res.count('members still dying when the runner had exited')
         if c.get('race'):
             res.count('race: delivered while %s' % (o['deliveries'][0][1] if o['deliveries'] else '?'))
-        if event or late or o['selfexit']:
+        if event or late or o['selfexit'] or o.get('slow'):
             res.nontrivial.add(key)
+        if not c.get('race') and bool(o.get('slow')) != expected_slow(c) and o['result'][0] != 'killed':
+            res.oracle_failures.append({'case': c, 'signature': 'handshake-outcome',
+                                        'what': 'the runner %s "process group failure" although the child was %sheld beyond '
+                                        'the handshake timeout: %s' % ('reported' if o.get('slow') else 'did not report',
+                                                                       '' if expected_slow(c) else 'not ', describe(c, o)),
+                                        'impl': impl_s})
         if o['strangers']:
             res.oracle_failures.append({'case': c, 'signature': 'unknown-process-in-group',
                                         'what': '%d live process(es) in the step\'s group that the probe did not report: %s'
@@ -331,8 +398,10 @@ def run(ctx, thorough=None):
     res.rule = ('process trees (depth <= 4, fan-out <= 3, TERM-ignoring and self-exiting members, main included) x scheduler '
                 'scripts: SIGTERM / SIGALRM (the runner\'s own alarm(1) and a direct one) at every sync point of step_fork, '
                 'step_exec and killwaitpg1 and while blocked in waitpid, second signals inside the kill phase, members '
-                'exiting before / during the kill, no event, events after the step ended; non-trivial = a signal was '
-                'delivered or a member exited on its own; distinct by (tree, mode, script)')
+                'exiting before / during the kill, no event, events after the step ended; the forked child held before '
+                'setsid beyond the handshake timeout (SIGTERM / expiry of the timeout / nothing on the "process group '
+                'failure" path) or released in time; non-trivial = a signal was delivered, the timeout passed, a member '
+                'exited on its own or the handshake failed; distinct by (tree, mode, script)')
     trees = list(QUICK_TREES)
     if thorough:
         seen = set(trees)
@@ -372,7 +441,7 @@ def replay(ctx, rep):
     env = evaluate(ctx, [case], res)
     print('case:', json.dumps(case))
     last = env.get('last', {})
-    print('format: <runner> <main> <alive per member> <signals sent to the group> <event> <late> <self-exits> det <outcomes>')
+    print('format: <runner> <main> <alive per member> <signals sent to the group> <event> <late> <self-exits> det <outcomes> <handshake>')
     print('model says:          ', last.get('model'))
     print('implementation did:  ', last.get('implementation'))
     print('oracle (spec_okb) on the implementation:', 'ok' if last.get('oracle_ok') else 'VIOLATED')
